@@ -9,4 +9,12 @@ def hhmm24RuleWire : Bool := true
 def hhmmMaxMinutesJSON : Nat := 59
 def hhmmMaxHoursJSON : Nat := 24
 def hhmm24RuleJSON : Bool := true
+def controlStateStringTable : List String := ["", "normally open", "normally closed", "controlled"]
+def controlStateStringGuard : String := "v < 0 || int(v) >= len(states)"
+def controlStateStringIndexesByValue : Bool := true
+def controlStateStringDelegatesToString : Bool := false
+def controlStateMarshalJSONTable : List String := []
+def controlStateMarshalJSONGuard : String := ""
+def controlStateMarshalJSONIndexesByValue : Bool := false
+def controlStateMarshalJSONDelegatesToString : Bool := true
 end Uhppote.Gen.Types
